@@ -1627,6 +1627,173 @@ Section Trans.
         eexists th, _, _. split; [exact Hlk''|]. split; [eapply Hself; exact Hlk''|]. left. eexists. reflexivity.
   Qed.
 
+
+  (* --- the originating item is live, nothing is committed *)
+  Lemma trans_live : forall it0 q, klookup K0 (items st) = Some it0 -> it_tomb it0 = false -> nb k id st = 0 ->
+    qout k id st = Some q -> q <> WEnd ->
+    (dead st (it_dest it0) (it_remap it0) \/ doomed k id st h (it_call it0) \/ synced st arr q (it_dest it0) (it_remap it0)) ->
+    phase k id st' h' arr'.
+  Proof.
+    intros it0 q Hl0 Hlive Hnb Hq Hqe Hsy.
+    pose proof (k0_seen _ Hl0) as Hseen.
+    pose proof (lookup_in key_eqb key_eqb_ok _ _ _ Hl0) as Hin0.
+    pose proof (tp_alloc _ HP _ _ Hin0 eq_refl) as Hlt.
+    set (d := it_dest it0) in *. set (did := it_remap it0) in *. set (c0 := it_call it0) in *.
+    assert (Hnbl : forall th code j, In (th, code) (threads st) -> In j code -> blocked k id j = false).
+    { intros. eapply (nb_zero_none k id st); eassumption. }
+    (* the disjunction dead / doomed / synced after a step that changes neither K0 nor the log *)
+    assert (Hsync' : klookup K0 (items st') = Some it0 ->
+       (forall th2 room r rest, l = LStep th2 room -> lookup tid_eqb th2 (threads st) = Some (IRcvGet r :: rest) -> pre_kind d did (IRcvGet r) = None) ->
+       (forall th2 room rest r0, l = LStep th2 room -> lookup tid_eqb th2 (threads st) = Some (IFailGet K0 r0 :: rest) -> In (th2, c0) h ->
+          lookup tid_eqb th2 (threads st') = Some (IEntomb K0 (FromFail r0) :: rest)) ->
+       dead st' d did \/ doomed k id st' h' c0 \/ synced st' arr' q d did).
+    { intros Hk0 Hnoc Hfail. destruct Hsy as [Hd|[(th3&i3&R3&Elk3&Hh3&Hi3)|Hsyn]].
+      - left. eapply dead_mono; eassumption.
+      - right. left.
+        destruct (lstep_or_not l) as [(th2&room&Hl)|Hn].
+        + destruct (eqb_dec tid_eqb tid_eqb_ok th3 th2) as [->|Hne].
+          * destruct Hi3 as [(r0&->)|(r0&->)].
+            -- exists th2, (IEntomb K0 (FromFail r0)), R3. pose proof (Hfail _ _ _ _ Hl Elk3 Hh3) as Hl'.
+               split; [exact Hl'|]. split; [eapply held_keep; eassumption|]. right. exists r0. reflexivity.
+            -- exfalso. (* Entomb of the live K0 changes it *)
+               destruct (lstep_inv th2 room Hl) as (i2&rest&st1&pushed&Elk&E&Hst'). rewrite Elk3 in Elk. inversion Elk. subst i2 rest.
+               cbn [exec] in E. destruct (items_entomb cf st K0) as [st2 g] eqn:Ee.
+               destruct (items_entomb_spec _ _ _ _ _ Ee) as (_&_&_&_&_&_&Hsp). rewrite Hl0 in Hsp.
+               assert (Hit2 : items st1 = items st2) by (destruct g as [[it [|]]|]; inversion E; reflexivity).
+               rewrite Hst' in Hk0. cbn [set_thread set_threads items] in Hk0. rewrite Hit2 in Hk0.
+               destruct Hsp as [(_&Hi&_)|[(Ht&_)|(_&_&Hi&_)]].
+               ++ rewrite Hi, (lookup_remove_eq key_eqb key_eqb_ok) in Hk0. discriminate.
+               ++ congruence.
+               ++ rewrite Hi, (lookup_insert_eq key_eqb key_eqb_ok) in Hk0. inversion Hk0 as [Heq]. apply (f_equal it_tomb) in Heq. cbn in Heq. congruence.
+          * assert (Hl' : lookup tid_eqb th3 (threads st') = Some (i3 :: R3)).
+            { eapply step_lookup_other; [exact Hs| |exact Elk3]. intros room3 Heq. rewrite Hl in Heq. inversion Heq. congruence. }
+            exists th3, i3, R3. split; [exact Hl'|]. split; [eapply held_keep; eassumption|exact Hi3].
+        + assert (Hl' : lookup tid_eqb th3 (threads st') = Some (i3 :: R3)).
+          { eapply step_lookup_other; [exact Hs| |exact Elk3]. intros room3 Heq. eapply Hn. exact Heq. }
+          exists th3, i3, R3. split; [exact Hl'|]. split; [eapply held_keep; eassumption|exact Hi3].
+      - destruct (step_synced cf st h l st' arr q d did HA Hs Hlt Hok Hnoc (or_intror Hsyn)) as [Hd|Hsy']; [left; exact Hd|right; right; exact Hsy']. }
+    destruct (lstep_or_not l) as [(th2&room&Hl)|Hn].
+    2:{ destruct (quiet_other Hseen) as [Hnb' Hw]. { intros th2 room i2 rest Hl. exfalso. eapply Hn. exact Hl. }
+        assert (Hk0 : klookup K0 (items st') = Some it0).
+        { destruct (step_items_keep _ _ _ _ _ _ HI Hs Hl0 Hlive) as [Hk|(th3&room3&rest3&i3&Hl3&_)]; [exact Hk|]. exfalso. eapply Hn. exact Hl3. }
+        eapply (PhLive k id st' h' arr' it0 q); try assumption; [lia|rewrite (qout_same k id _ _ Hw); exact Hq|].
+        apply Hsync'; [exact Hk0| |]; intros th2 room; intros; exfalso; eapply Hn; eassumption. }
+    destruct (lstep_inv th2 room Hl) as (i2&rest&st1&pushed&Elk&E&Hst').
+    pose proof (lookup_in tid_eqb tid_eqb_ok _ _ _ Elk) as Hin2.
+    pose proof (Hnbl _ _ _ Hin2 (or_introl eq_refl)) as Hb2.
+    assert (Hw : wout k id st' = wout k id st).
+    { destruct (step_wout cf k id _ _ _ Hs) as [Hw|(th3&room3&i3&rest3&Hl3&Elk3&Hb3&_)]; [exact Hw|].
+      rewrite Hl in Hl3. inversion Hl3. subst th3. rewrite Elk in Elk3. inversion Elk3. subst i3. congruence. }
+    assert (Hq' : qout k id st' = Some q) by (rewrite (qout_same k id _ _ Hw); exact Hq).
+    assert (Hnb' : nb k id st' = csum (bl k id) pushed).
+    { rewrite Hst', (nb_LStep cf k id _ _ _ _ _ _ _ HI Elk E). unfold bl at 1. rewrite Hb2. cbn. lia. }
+    pose proof (pushed_bl_count k id _ _ _ _ _ _ E) as Hle.
+    assert (Hlk' : pushed ++ rest <> [] -> lookup tid_eqb th2 (threads st') = Some (pushed ++ rest)).
+    { intro Hne. rewrite Hst', lookup_set_thread_self. destruct (pushed ++ rest); [contradiction|reflexivity]. }
+    assert (Htouch : forall c, In c (touches_i st i2) -> others_hold h th2 c = false).
+    { intros c Hc. assert (Hhead : head_of st th2 = Some i2) by (unfold head_of; rewrite Elk; reflexivity).
+      pose proof Hno as Hno2. rewrite Hl in Hno2. unfold no_overlap_step in Hno2. cbn [actor touches] in Hno2. rewrite Hhead in Hno2.
+      rewrite forallb_forall in Hno2. apply negb_true_iff. apply Hno2. exact Hc. }
+    destruct (step_items_keep _ _ _ _ _ _ HI Hs Hl0 Hlive) as [Hk0|(th3&room3&rest3&i3&Hl3&Elk3&Hi3)].
+    - (* K0 is unchanged *)
+      destruct (Z_lt_le_dec 0 (csum (bl k id) pushed)) as [Hpos|Hzero].
+      + (* Receive looked K0 up: the frame is committed *)
+        destruct (csum_pos_in k id _ Hpos) as (j&Hj&Hbj).
+        destruct (new_blocked_touch _ _ _ _ _ _ _ Hl Elk E Hb2 Hj Hbj) as (it1&Hl1&_&Ht&[(r&s&Hi2&Hrk&Hjeq)|(s&ec&Hi2&_)]).
+        2:{ exfalso. subst i2. cbn [exec] in E. destruct (items_entomb cf st K0) as [st2 g] eqn:Ee.
+            destruct (items_entomb_spec _ _ _ _ _ Ee) as (_&_&_&_&_&_&Hsp). rewrite Hl0 in Hsp.
+            assert (Hit2 : items st1 = items st2) by (destruct g as [[it [|]]|]; inversion E; reflexivity).
+            rewrite Hst' in Hk0. cbn [set_thread set_threads items] in Hk0. rewrite Hit2 in Hk0.
+            destruct Hsp as [(_&Hi&_)|[(Htt&_)|(_&_&Hi&_)]].
+            - rewrite Hi, (lookup_remove_eq key_eqb key_eqb_ok) in Hk0. discriminate.
+            - congruence.
+            - rewrite Hi, (lookup_insert_eq key_eqb key_eqb_ok) in Hk0. inversion Hk0 as [Heq]. apply (f_equal it_tomb) in Heq. cbn in Heq. congruence. }
+        rewrite Hl0 in Hl1. inversion Hl1. subst it1 i2 j.
+        assert (Hcm : committed k id (IRcvChk r K0 (Some (it0, s))) = Some r) by (cbn [committed]; rewrite Hbj; reflexivity).
+        cbn in Hbj. apply andb_true_iff in Hbj. destruct Hbj as [Hbj Hb4]. apply andb_true_iff in Hbj. destruct Hbj as [Hb1 _].
+        apply andb_true_iff in Hb1. destruct Hb1 as [Hb1 Hwire]. unfold is_wire in Hwire. destruct (kind_of (r_f r)) as [x|] eqn:Hk; [|discriminate].
+        pose proof (w_code _ HW _ _ _ Hin2 (or_introl eq_refl)) as Hwk. cbn in Hwk. destruct Hwk as (A&_&_).
+        rewrite (kind_of_response (r_f r)) in A by congruence. assert (Hft : r_ft r = c_responseFrame) by congruence.
+        assert (Hfl : flight (IRcvGet r) = Some (r_own r, r_d r, f_id (r_f r), r_call r)) by (cbn; rewrite Hft; reflexivity).
+        destruct (f_own _ _ HF _ _ _ _ _ _ _ Hin2 (or_introl eq_refl) Hfl) as (it1&Hlo&Hlo_live&_&Hd1&Hr1).
+        pose proof (f_thr _ _ HF _ _ _ Hin2 (or_introl eq_refl)) as Hthr. cbn in Hthr. destruct (Hthr Hft) as [Hth2 Hdir].
+        apply andb_true_iff in Hb1. destruct Hb1 as [E1 E2]. apply Z.eqb_eq in E1. apply Z.eqb_eq in E2.
+        pose proof (lookup_in key_eqb key_eqb_ok _ _ _ Hlo) as Hino.
+        destruct (tp2 _ HP _ _ it0 Hino Hdir) as [Hd0 Hr0]. { rewrite Hd1, Hr1, E1, E2. exact Hl0. }
+        assert (Hown : r_own r = (d, 1, did)). { rewrite (key_eta (r_own r)), Hdir. unfold d, did. rewrite Hd0, Hr0. reflexivity. }
+        assert (Hh2 : In (th2, c0) h').
+        { apply (held_next_self _ _ _ _ _ _ (pushed ++ rest)); [rewrite Hl; reflexivity|apply Hlk'; intro Hnil; apply app_eq_nil in Hnil; destruct Hnil as [-> _]; contradiction|].
+          right. unfold acquires, touches. rewrite Hl. unfold head_of. rewrite Elk. apply in_or_app. left. exact Ht. }
+        (* legality from the synchronisation *)
+        assert (Hleg : qarr arr d did = wire_step q x).
+        { destruct Hsy as [Hd|[(th3&i3&R3&Elk3&Hh3&Hi3)|[Hsa _]]].
+          - exfalso. rewrite Hown in Hlo. rewrite (Hd _ Hlo) in Hlo_live. discriminate.
+          - exfalso. assert (th3 = th2) by (eapply others_hold_false; [apply Htouch; exact Ht|exact Hh3]). subst th3.
+            rewrite Elk in Elk3. inversion Elk3. subst i3. destruct Hi3 as [(r0&Hx)|(r0&Hx)]; discriminate.
+          - eapply (Hsa th2 _ (IRcvGet r) x Hin2 (or_introl eq_refl)). cbn. rewrite Hown, (proj2 (key_eqb_ok _ _) eq_refl), Hft. cbn. exact Hk. }
+        assert (Harr'eq : arr' = arr) by (eapply arr'_lstep; exact Hl).
+        destruct (Hok d did) as [q' Hq'a]. fold arr' in Hq'a. rewrite Harr'eq in Hq'a.
+        eapply (PhFwd k id st' h' arr' th2 (pushed ++ rest) (IRcvChk r K0 (Some (it0, s))) r it0 q x q'); try eassumption.
+        * rewrite Hst'. apply in_set_thread_self. intro Hnil. apply app_eq_nil in Hnil. destruct Hnil as [-> _]. contradiction.
+        * apply in_or_app. left. exact Hj.
+        * lia.
+        * congruence.
+        * rewrite Harr'eq. exact Hq'a.
+      + (* nothing committed: still live *)
+        assert (Hnb0 : nb k id st' = 0) by (pose proof (csum_bl_nonneg k id pushed); lia).
+        eapply (PhLive k id st' h' arr' it0 q); try assumption.
+        apply Hsync'; [exact Hk0| |].
+        * intros th3 room3 r rest3 Hl3 Elk3. rewrite Hl in Hl3. inversion Hl3. subst th3 room3. rewrite Elk in Elk3. inversion Elk3. subst i2 rest3.
+          destruct (pre_kind d did (IRcvGet r)) as [x|] eqn:Ep; [|reflexivity]. exfalso.
+          cbn in Ep. destruct (key_eqb (r_own r) (d, 1, did) && (r_ft r =? c_responseFrame)) eqn:Eb; [|discriminate].
+          apply andb_true_iff in Eb. destruct Eb as [Eo Eft]. apply key_eqb_ok in Eo. apply Z.eqb_eq in Eft.
+          assert (Hfl : flight (IRcvGet r) = Some (r_own r, r_d r, f_id (r_f r), r_call r)) by (cbn; rewrite Eft; reflexivity).
+          destruct (f_own _ _ HF _ _ _ _ _ _ _ Hin2 (or_introl eq_refl) Hfl) as (it1&Hlo&Hlo_live&_&Hd1&Hr1).
+          rewrite Eo in Hlo. destruct (tp3 _ HP _ _ it1 Hin0 eq_refl Hlo) as [Hdk Hrk].
+          cbn [key_conn key_id fst snd] in Hdk, Hrk.
+          assert (Hrkey : rcv_key r = K0). { unfold rcv_key. rewrite Eft, <- Hd1, <- Hr1, Hdk, Hrk. reflexivity. }
+          (* the Get returns the live K0 and the frame is committed *)
+          cbn [exec] in E. fold (rcv_key r) in E. rewrite Hrkey in E.
+          destruct (items_get st K0 (fin_of (r_f r))) as [st2 g] eqn:Eg. inversion E. subst st1 pushed. clear E.
+          destruct (items_get_spec _ _ _ _ _ Eg) as [_ Hm]. rewrite Hl0 in Hm. destruct Hm as [b ->].
+          assert (Hcommit : negb (fin_of (r_f r)) || b = true).
+          { destruct (fin_of (r_f r)) eqn:Ef; [|reflexivity]. cbn. destruct b; [reflexivity|]. exfalso.
+            eapply (get_wins st h th2 (IRcvGet r) rest K0); try eassumption; [reflexivity|].
+            intros c Hc. apply Htouch. cbn [touches_i gets_i]. rewrite Hrkey. exact Hc. }
+          cbn [csum] in Hzero. unfold bl in Hzero. cbn [blocked] in Hzero.
+          rewrite <- Hd1, Hdk, <- Hr1, Hrk, !Z.eqb_refl, Hlive, Hcommit in Hzero. unfold is_wire in Hzero. rewrite Ep in Hzero. cbn in Hzero. lia.
+        * intros th3 room3 rest3 r0 Hl3 Elk3 Hh3. rewrite Hl in Hl3. inversion Hl3. subst th3 room3. rewrite Elk in Elk3. inversion Elk3. subst i2 rest3.
+          cbn [exec] in E. destruct (items_get st K0 true) as [st2 g] eqn:Eg.
+          destruct (items_get_spec _ _ _ _ _ Eg) as [_ Hm]. rewrite Hl0 in Hm. destruct Hm as [b ->].
+          destruct b.
+          -- inversion E. subst st1 pushed. rewrite Hlk' by discriminate. reflexivity.
+          -- exfalso. eapply (get_wins2 st h th2 (IFailGet K0 r0) rest K0); try eassumption; reflexivity.
+    - (* K0 is entombed or deleted by this step *)
+      rewrite Hl in Hl3. inversion Hl3. subst th3 room3. rewrite Elk in Elk3. inversion Elk3. subst i3 rest3.
+      assert (Hnl' : k0_notlive k id st').
+      { intros it Hx. rewrite Hst' in Hx. cbn [set_thread set_threads items] in Hx.
+        destruct Hi3 as [[s Hi3]|Hi3]; subst i2; cbn [exec] in E.
+        - destruct (items_entomb cf st K0) as [st2 g] eqn:Ee.
+          destruct (items_entomb_spec _ _ _ _ _ Ee) as (_&_&_&_&_&_&Hsp). rewrite Hl0 in Hsp.
+          assert (Hit2 : items st1 = items st2) by (destruct g as [[it1 [|]]|]; inversion E; reflexivity). rewrite Hit2 in Hx.
+          destruct Hsp as [(_&Hi&_)|[(Htt&_)|(_&_&Hi&_)]].
+          + rewrite Hi, (lookup_remove_eq key_eqb key_eqb_ok) in Hx. discriminate.
+          + congruence.
+          + rewrite Hi, (lookup_insert_eq key_eqb key_eqb_ok) in Hx. inversion Hx. reflexivity.
+        - destruct (items_delete st K0) as [st2 g] eqn:Ed.
+          destruct (items_delete_spec _ _ _ _ Ed) as (_&_&_&_&_&_&_&Hsp). rewrite Hl0 in Hsp. destruct Hsp as [_ Hi].
+          assert (Hit2 : items st1 = items st2) by (destruct g as [[it1 [|]]|]; inversion E; reflexivity). rewrite Hit2 in Hx.
+          rewrite Hi, (lookup_remove_eq key_eqb key_eqb_ok) in Hx. discriminate. }
+      destruct (Z_lt_le_dec 0 (csum (bl k id) pushed)) as [Hpos|Hzero].
+      + destruct (csum_pos_in k id _ Hpos) as (j&Hj&Hbj).
+        destruct (new_blocked_touch _ _ _ _ _ _ _ Hl Elk E Hb2 Hj Hbj) as (it1&_&_&_&[(r&s&Hi2&_)|(s&ec&Hi2&Hjeq)]).
+        * exfalso. destruct Hi3 as [[s3 Hi3]|Hi3]; congruence.
+        * subst j. eapply (PhErr k id st' h' arr' th2 (pushed ++ rest) ec q); try eassumption; [|apply in_or_app; left; exact Hj|lia].
+          rewrite Hst'. apply in_set_thread_self. intro Hnil. apply app_eq_nil in Hnil. destruct Hnil as [-> _]. contradiction.
+      + assert (Hnb0 : nb k id st' = 0) by (pose proof (csum_bl_nonneg k id pushed); lia).
+        apply PhSettled; [apply settled_of; [apply seen_mono; exact Hseen|exact Hnl'|exact Hnb0]|]. exists q. exact Hq'.
+  Qed.
+
   (* --- unseen *)
   Lemma trans_unseen : ~ In (k, id) (seen st) -> phase k id st' h' arr'.
   Proof.
@@ -1660,4 +1827,71 @@ Section Trans.
     intros Hset [q Hq]. destruct (step_settled _ _ _ _ _ _ HI HW Hfresh Hset Hs) as [Hset' Hw].
     apply PhSettled; [exact Hset'|]. exists q. unfold qout, wout in *. rewrite Hw. exact Hq.
   Qed.
+  Theorem phase_step : phase k id st h arr -> phase k id st' h' arr'.
+  Proof.
+    intros [Hu|Hset Hq|th code i f H1 H2 H3 H4 H5 H6 H7|th code ec q H1 H2 H3 H4 H5 H6|it0 q H1 H2 H3 H4 H5 H6|th code j r it0 q x q' H1 H2 H3 H4 H5 H6 H7 H8 H9 H10 H11 H12|it0 th R H1 H2 H3 H4 H5 H6].
+    - apply trans_unseen. exact Hu.
+    - apply trans_settled; assumption.
+    - eapply trans_adm; eassumption.
+    - eapply trans_err; eassumption.
+    - eapply trans_live; eassumption.
+    - eapply trans_fwd; eassumption.
+    - eapply trans_window; eassumption.
+  Qed.
+
+  Lemma arr_inv_step : forall d f, In (d, f) arr' -> kind_of f <> None -> f_id f < c_nextid (getc (conns st') d).
+  Proof.
+    intros d f Hin Hk. pose proof (step_nextid_mono cf _ _ _ d Hs) as Hm.
+    assert (Hold : In (d, f) arr -> f_id f < c_nextid (getc (conns st') d)) by (intro Hi; pose proof (Harr _ _ Hi Hk); lia).
+    unfold arr' in Hin. pose proof Hcau as Hc. destruct l as [d0 f0 e0| | | | | |]; cbn [arr_step] in Hin; try (apply Hold; exact Hin).
+    destruct Hin as [Heq|Hin]; [|apply Hold; exact Hin]. inversion Heq. subst d0 f0. cbn [causal_step] in Hc.
+    destruct (kind_of f); [|contradiction Hk; reflexivity]. apply Z.ltb_lt in Hc. rewrite get_conn_getc in Hc. lia.
+  Qed.
 End Trans.
+
+(* ---------------------------------------------------------------- the theorem *)
+
+Theorem relay_grammar_calm_q : forall cf ls st k id, run_fresh cf init ls = Some st ->
+  no_overlap cf ls -> causal cf ls -> dest_ok ls -> exists q, wire_run W0 (wire_of k id (sent st)) = Some q.
+Proof.
+  intros cf ls st k id Hrun Hno Hca Hde. unfold no_overlap in Hno. unfold causal in Hca. unfold dest_ok in Hde.
+  assert (G : forall ls st0 h arr, AllInv st0 h -> phase k id st0 h arr ->
+            (forall d f, In (d, f) arr -> kind_of f <> None -> f_id f < c_nextid (getc (conns st0) d)) ->
+            run_fresh cf st0 ls = Some st -> sched cf no_overlap_step st0 h ls = true -> causal_run cf st0 ls = true ->
+            (forall d did, wire_prefix_ok (wire_of d did (arr_run arr ls)) = true) -> exists q, qout k id st = Some q).
+  { clear. induction ls as [|l r IH]; intros st0 h arr HA Hph Harr Hrun Hno Hca Hde; cbn in Hrun.
+    - inversion Hrun. subst. eapply phase_q; [apply (a_winv _ _ HA)|exact Hph].
+    - destruct (fresh_label st0 l) eqn:Ef; [|discriminate]. destruct (step cf st0 l) as [st1|] eqn:Es; [|discriminate].
+      cbn in Hno, Hca. rewrite Es in Hno, Hca. apply andb_true_iff in Hno. destruct Hno as [Hno1 Hno2]. apply andb_true_iff in Hca. destruct Hca as [Hca1 Hca2].
+      assert (Hok : arr_ok (arr_step arr l)) by (eapply dest_ok_arr_ok; exact Hde).
+      eapply (IH st1 (held_next st0 l st1 h) (arr_step arr l)).
+      + eapply step_all; eassumption.
+      + eapply phase_step; eassumption.
+      + eapply arr_inv_step; eassumption.
+      + exact Hrun.
+      + exact Hno2.
+      + exact Hca2.
+      + exact Hde. }
+  eapply (G ls init [] []); try eassumption.
+  - apply AllInv_init.
+  - apply PhUnseen. intros [].
+  - intros d f [].
+Qed.
+
+(* C10 for the relay: for every fresh-id schedule without overlap, with destinations that send a
+   prefix of an accepted word per message id and do not answer ids the relay has not allocated,
+   the frames enqueued towards the caller for a request are a prefix of an accepted word, with
+   at most one terminal frame and nothing after it *)
+Theorem relay_grammar_calm : forall cf ls st k id, run_fresh cf init ls = Some st ->
+  no_overlap cf ls -> causal cf ls -> dest_ok ls ->
+  wire_prefix_ok (wire_of k id (sent st)) = true /\
+  (forall l1 x l2, wire_of k id (sent st) = l1 ++ x :: l2 -> terminal x = true -> l2 = []) /\
+  (length (filter terminal (wire_of k id (sent st))) <= 1)%nat.
+Proof.
+  intros cf ls st k id Hrun Hno Hca Hde.
+  assert (Hp : wire_prefix_ok (wire_of k id (sent st)) = true).
+  { apply wire_prefix_ok_run. eapply relay_grammar_calm_q; eassumption. }
+  split; [exact Hp|]. split.
+  - intros l1 x l2 Heq Ht. rewrite Heq in Hp. eapply prefix_ok_terminal_last; eassumption.
+  - apply prefix_ok_one_terminal. exact Hp.
+Qed.
